@@ -833,6 +833,7 @@ CROSS = {("Complete", "Commit"), ("Commit", "Complete"), ("Complete", "Complete"
          ("CancelGroup", "CancelGroup"), ("Commit", "Commit"), ("Heartbeat", "Complete"), ("Complete", "Heartbeat"),
          ("AddResources", "Complete"), ("Complete", "AddResources"), ("InsertJob", "InsertJob"), ("Complete", "CancelReadyCall"),
          ("CancelReadyCall", "Complete"), ("Complete", "FailFastCall"), ("FailFastCall", "Complete")}
+REQUESTS = {"CreateUpdate", "InsertGroup", "InsertJob", "Commit", "CancelGroup", "MarkDeleted"}
 COMPACTORS = ("Heartbeat", "AddResources", "Complete", "UnscheduleCall", "Deactivate")
 
 
@@ -970,8 +971,15 @@ def interleave_stage(ctx, pid, names, *, budget_s, all_pairs=False, max_k=40, pa
                         # the same request delivered twice: where the specification does not enable the second delivery it is
                         # refused / recognised as a duplicate, i.e. it changes nothing
                         s12 = s21 = s12 if s12 is not None else da
-                    elif s12 is None or s21 is None:
-                        continue                    # one of the serial orders leaves the explored graph: its outcome is not known
+                    else:
+                        # a client request that the specification does not enable in the other order is refused there (changes nothing);
+                        # for driver / worker messages a missing edge is an environment assumption: that order's outcome is not known
+                        if s12 is None and nb in REQUESTS:
+                            s12 = da
+                        if s21 is None and na in REQUESTS:
+                            s21 = db
+                        if s12 is None or s21 is None:
+                            continue
                     allowed = [g.nodes[x] for x in (s12, s21)]
                     stats["pairs"] += 1
                     for k in range(1, max_k + 1):
